@@ -626,7 +626,7 @@ class ExecMixin:
         # first arrival: cut. havoc what the loop may modify, assume the invariant.
         mods = self.loop_mods(fn, lp, spec)
         for key in mods:
-            if key in st.sorts: st.havoc(key, log=False)
+            st.havoc(key, log=False)
         st.bump_alloc()
         for x in phis:
             v = self.fresh(st, x['type'], 'loop.' + (x.get('comment') or x['name']))
